@@ -20,7 +20,11 @@ Definition vprefix (v : vref) : option bytes :=
   match v with VSingle s => to_length_prefixed s | VMulti p => to_length_prefixed_nested p end.
 
 (* [mu] = true: the view came from the `_mut` accessor (PrefixedStorage); false: read-only accessor
-   (ReadonlyPrefixedStorage).  Every operation builds its view afresh from the App. *)
+   (ReadonlyPrefixedStorage).  In the first pass of the harness every operation builds its view afresh
+   from the App; in the second pass (long-lived views, end of this file) consecutive operations on
+   one view go through ONE object.  A view object holds nothing but the base reference and its prefix
+   (mod.rs:39-42, 91-94) and every method is a function of (base, prefix, arguments) (mod.rs:64-87,
+   114-137): the mechanism model below is therefore the same for both passes. *)
 Inductive op7 :=
 | RawSet (k x : bytes)                                    (* app.storage_mut().set *)
 | RawDel (k : bytes)                                      (* app.storage_mut().remove *)
@@ -226,3 +230,238 @@ Lemma readonly_step raw v k x :
   (exists ns, vprefix v = Some ns) ->
   m_step raw (VSet v false k x) = (APanic, raw) /\ m_step raw (VDel v false k) = (APanic, raw).
 Proof. intros [ns E]. cbn [m_step]. rewrite E. auto. Qed.
+
+(* ====================================================================================================
+   LONG-LIVED VIEW OBJECTS.  Second pass of the harness over the same script: every maximal run of
+   consecutive operations on one view (same constructor, same path, same accessor) is performed
+   through ONE `Box<dyn Storage>` obtained once from the App.  While a mutable view is alive the
+   borrow rules forbid looking at `App::storage()`, so the raw dump is observed only where the object
+   has been dropped: an observation of this pass is (answer, Some dump) or (answer, None).
+   ==================================================================================================== *)
+Definition obs7l := (ans * option (list kv))%type.
+
+Definition vref_eqb (a b : vref) : bool :=
+  match a, b with
+  | VSingle s, VSingle t => beqb s t
+  | VMulti p, VMulti q => list_eqb beqb p q
+  | _, _ => false
+  end.
+
+Definition view_of (o : op7) : option (vref * bool) :=
+  match o with
+  | VGet v mu _ => Some (v, mu)
+  | VRange v mu _ _ _ => Some (v, mu)
+  | VSet v mu _ _ => Some (v, mu)
+  | VDel v mu _ => Some (v, mu)
+  | _ => None
+  end.
+
+Definition is_vop (o : op7) : bool := match view_of o with Some _ => true | None => false end.
+
+Definition same_view (o o' : op7) : bool :=
+  match view_of o, view_of o' with
+  | Some (v, mu), Some (v', mu') => vref_eqb v v' && Bool.eqb mu mu'
+  | _, _ => false
+  end.
+
+(* shape of a long-lived observation list: one observation per operation, and a dump may be withheld
+   only between two consecutive operations on the same view *)
+Fixpoint ll_shape (ops : list op7) (obs : list obs7l) : bool :=
+  match ops, obs with
+  | [], [] => true
+  | o :: ops', (_, d) :: obs' =>
+      match d with
+      | Some _ => true
+      | None => match ops' with o' :: _ => same_view o o' | [] => false end
+      end && ll_shape ops' obs'
+  | _, _ => false
+  end.
+
+(* what the PROPERTY demands of one operation through a view of an encodable path, as a function of
+   the raw store before it: the answer, and the raw store afterwards — the base with its window
+   replaced and its complement kept ([split_window]: for sorted stores this is the only raw' that
+   [ok_step] accepts).  None: C07 does not constrain the operation. *)
+Definition spec_step (raw : list kv) (o : op7) : option obs7 :=
+  match o with
+  | RawSet _ _ | RawDel _ | RawGet _ | RawRange _ _ _ => None
+  | VGet v _ k =>
+      match enc_path (vpath v) with
+      | None => None
+      | Some ns => Some (AGet (assoc bcmp k (window ns raw)), raw)
+      end
+  | VRange v _ s e o =>
+      match enc_path (vpath v) with
+      | None => None
+      | Some ns => Some (ARange (spec_range bcmp (window ns raw) s e o), raw)
+      end
+  | VSet v mu k x =>
+      match enc_path (vpath v) with
+      | None => None
+      | Some ns => Some (if mu then (AUnit, replace_window ns (insert bcmp k x (window ns raw)) raw) else (APanic, raw))
+      end
+  | VDel v mu k =>
+      match enc_path (vpath v) with
+      | None => None
+      | Some ns => Some (if mu then (AUnit, replace_window ns (delete bcmp k (window ns raw)) raw) else (APanic, raw))
+      end
+  end.
+
+(* the property oracle on a long-lived pass.  Where the dump is shown the step is judged by [ok_step],
+   exactly as in the first pass, against the raw store carried so far, and the walk goes on from the
+   dump the implementation showed.  Where it is withheld the answer must be the one the property
+   demands and the walk goes on from the raw store the property demands, so that the next shown dump
+   is judged against the composition of the hidden steps. *)
+Fixpoint oracle_ll (raw : list kv) (ops : list op7) (obs : list obs7l) (i : N) : option N :=
+  match ops, obs with
+  | [], [] => None
+  | o :: ops', (a, Some raw') :: obs' =>
+      if ok_step raw o a raw' then oracle_ll raw' ops' obs' (N.succ i) else Some i
+  | o :: ops', (a, None) :: obs' =>
+      if is_vop o then
+        match spec_step raw o with
+        | Some (a0, r0) => if ans_eqb a a0 then oracle_ll r0 ops' obs' (N.succ i) else Some i
+        | None => oracle_ll raw ops' obs' (N.succ i)      (* unencodable path: every step of the run is unconstrained *)
+        end
+      else Some i                                          (* a dump is never withheld after direct access to the base *)
+  | _, _ => Some i
+  end.
+
+(* full observations (first pass, or the model) against long-lived ones: same answers, same dumps
+   wherever a dump is shown *)
+Definition obs_ll_eqb (m : obs7) (x : obs7l) : bool :=
+  ans_eqb (fst m) (fst x) && match snd x with Some d => kvs_eqb (snd m) d | None => true end.
+
+Fixpoint first_diff_ll (l1 : list obs7) (l2 : list obs7l) (i : N) : option N :=
+  match l1, l2 with
+  | [], [] => None
+  | x :: l1', y :: l2' => if obs_ll_eqb x y then first_diff_ll l1' l2' (N.succ i) else Some i
+  | _, _ => Some i
+  end.
+
+(* The case with both passes.  [observed] is judged by [c07].  The long-lived pass is then judged by
+   the same oracle and the same model; indices of its observations are reported shifted by the
+   number of operations.  When it shows nothing that the first pass did not show (same answers, same
+   dumps) the verdict Agree of the first pass carries over: [agree_sound_ll] proves that the oracle
+   and the model accept it — the evaluation of both is skipped only then. *)
+Definition c07l (ops : list op7) (observed : list obs7) (observed_ll : list obs7l) : verdict :=
+  match c07 ops observed with
+  | Agree =>
+      let n := N.of_nat (length ops) in
+      if ll_shape ops observed_ll then
+        match first_diff_ll observed observed_ll 0 with
+        | None => Agree
+        | Some _ =>
+            match oracle_ll [] ops observed_ll 0 with
+            | Some i => PropFail (n + i)
+            | None =>
+                match first_diff_ll (run_model [] ops) observed_ll 0 with
+                | Some i => Disagree (n + i)
+                | None => Agree
+                end
+            end
+        end
+      else Disagree (n + n)
+  | v => v
+  end.
+
+(* ---------- the long-lived oracle accepts every well-shaped partial view of the model's output ---------- *)
+Lemma ans_eqb_eq x y : ans_eqb x y = true <-> x = y.
+Proof.
+  split; [|intros ->; apply ans_eqb_refl].
+  intros H. pose proof (proj1 (obs_eqb_eq (x, []) (y, []))) as K.
+  unfold obs_eqb, pair_eqb in K. cbn [fst snd] in K. rewrite H in K. specialize (K eq_refl). congruence.
+Qed.
+
+Lemma kvs_eqb_eq x y : kvs_eqb x y = true <-> x = y.
+Proof.
+  split; [|intros ->; apply kvs_eqb_refl].
+  intros H. pose proof (proj1 (obs_eqb_eq (AUnit, x) (AUnit, y))) as K.
+  unfold obs_eqb, pair_eqb in K. cbn [fst snd ans_eqb andb] in K. specialize (K H). congruence.
+Qed.
+
+(* on sorted stores the mechanism does what the property demands, and leaves the store alone where
+   the path cannot be encoded *)
+Lemma spec_step_model raw o : srt raw ->
+  match spec_step raw o with
+  | Some r => m_step raw o = r
+  | None => is_vop o = true -> snd (m_step raw o) = raw
+  end.
+Proof.
+  intros H. destruct o as [k x|k|k|s e o|v mu k|v mu s e o|v mu k x|v mu k]; cbn [spec_step m_step is_vop view_of];
+    try discriminate; rewrite <- vprefix_enc; destruct (vprefix v) as [ns|]; try reflexivity.
+  - rewrite v_get_spec. reflexivity.
+  - rewrite v_range_spec. reflexivity.
+  - destruct mu; [|reflexivity]. f_equal.
+    destruct (v_set_spec ns raw k x H) as (S & W & O). rewrite <- W. apply split_window; assumption.
+  - destruct mu; [|reflexivity]. f_equal.
+    destruct (v_remove_spec ns raw k H) as (S & W & O). rewrite <- W. apply split_window; assumption.
+Qed.
+
+Lemma same_view_vop o o' : same_view o o' = true -> is_vop o = true.
+Proof. unfold same_view, is_vop. destruct (view_of o) as [[v mu]|]; [reflexivity|discriminate]. Qed.
+
+Lemma model_ok_ll_from ops : forall raw obs i j, srt raw -> ll_shape ops obs = true ->
+  first_diff_ll (run_model raw ops) obs j = None -> oracle_ll raw ops obs i = None.
+Proof.
+  induction ops as [|o ops IH]; intros raw [|[a d] obs] i j H S F; cbn [run_model first_diff_ll ll_shape] in *;
+    try discriminate; [reflexivity|].
+  destruct (obs_ll_eqb (m_step raw o) (a, d)) eqn:E; [|discriminate].
+  unfold obs_ll_eqb in E. cbn [fst snd] in E. apply andb_true_iff in E as [Ea Ed]. apply ans_eqb_eq in Ea. subst a.
+  apply andb_true_iff in S as [Sd S].
+  pose proof (m_step_sorted raw o H) as Hs.
+  destruct d as [raw'|]; cbn [oracle_ll].
+  - apply kvs_eqb_eq in Ed. subst raw'. rewrite (m_step_ok raw o H). eapply IH; eassumption.
+  - assert (V : is_vop o = true) by (destruct ops as [|o' ops']; [discriminate|eapply same_view_vop, Sd]).
+    rewrite V. pose proof (spec_step_model raw o H) as M. destruct (spec_step raw o) as [[a0 r0]|].
+    + rewrite M in *. cbn [fst snd] in *. rewrite ans_eqb_refl. eapply IH; eassumption.
+    + rewrite (M V) in *. eapply IH; eassumption.
+Qed.
+
+Lemma model_ok_ll ops obs : ll_shape ops obs = true ->
+  first_diff_ll (run_model [] ops) obs 0 = None -> oracle_ll [] ops obs 0 = None.
+Proof. intros S F. eapply model_ok_ll_from; [constructor|exact S|exact F]. Qed.
+
+(* the harness's own way of hiding: the dump after an operation is withheld exactly when the next
+   operation is on the same view (maximal runs) *)
+Fixpoint hide_runs (ops : list op7) (obs : list obs7) : list obs7l :=
+  match ops, obs with
+  | o :: ops', (a, d) :: obs' =>
+      (a, match ops' with o' :: _ => if same_view o o' then None else Some d | [] => Some d end) :: hide_runs ops' obs'
+  | _, _ => []
+  end.
+
+Lemma hide_runs_shape ops : forall raw, ll_shape ops (hide_runs ops (run_model raw ops)) = true.
+Proof.
+  induction ops as [|o ops IH]; intros raw; cbn [run_model hide_runs ll_shape]; [reflexivity|].
+  destruct (m_step raw o) as [a d] eqn:E. cbn [snd ll_shape]. rewrite IH.
+  destruct ops as [|o' ops']; [reflexivity|]. destruct (same_view o o'); reflexivity.
+Qed.
+
+Lemma hide_runs_match ops : forall raw j, first_diff_ll (run_model raw ops) (hide_runs ops (run_model raw ops)) j = None.
+Proof.
+  induction ops as [|o ops IH]; intros raw j; cbn [run_model hide_runs first_diff_ll]; [reflexivity|].
+  destruct (m_step raw o) as [a d] eqn:E. cbn [snd first_diff_ll].
+  assert (X : obs_ll_eqb (a, d) (a, match ops with o' :: _ => if same_view o o' then None else Some d | [] => Some d end) = true).
+  { unfold obs_ll_eqb. cbn [fst snd]. rewrite ans_eqb_refl.
+    destruct ops as [|o' ops']; [apply kvs_eqb_refl|]. destruct (same_view o o'); [reflexivity|apply kvs_eqb_refl]. }
+  rewrite X. apply IH.
+Qed.
+
+Lemma model_ok_ll_runs ops : oracle_ll [] ops (hide_runs ops (run_model [] ops)) 0 = None.
+Proof. apply model_ok_ll; [apply hide_runs_shape|apply hide_runs_match]. Qed.
+
+(* a case with both passes that the check calls Agree: the first pass equals the model's output and
+   satisfies the oracle, the long-lived pass is well-shaped, shows the model's answers and the model's
+   dumps wherever it shows a dump, and satisfies the long-lived oracle *)
+Lemma agree_sound_ll ops observed observed_ll : c07l ops observed observed_ll = Agree ->
+  observed = run_model [] ops /\ oracle [] ops observed 0 = None /\
+  ll_shape ops observed_ll = true /\ first_diff_ll (run_model [] ops) observed_ll 0 = None /\
+  oracle_ll [] ops observed_ll 0 = None.
+Proof.
+  unfold c07l. destruct (c07 ops observed) eqn:C; try discriminate.
+  apply agree_sound in C as [-> O]. cbn zeta.
+  destruct (ll_shape ops observed_ll) eqn:S; [|discriminate].
+  destruct (first_diff_ll (run_model [] ops) observed_ll 0) eqn:F.
+  - destruct (oracle_ll [] ops observed_ll 0); discriminate.
+  - intros _. repeat split; auto. apply model_ok_ll; assumption.
+Qed.
